@@ -92,6 +92,37 @@ def acLine (d : ACDrv) (lineNo : Nat) (ts : List String) : ACDrv × List String 
           let (d, o) := viol d ["C18.bot-acted-although-not-asked-or-on-a-stale-view"]
           ({ d with mismatches := d.mismatches + 1 }, mism d s!"bot move={mv} without a hand view" ++ o)
     | _, _, _, _, _, _, _ => (d, [s!"BADLINE {lineNo} ac-bot"])
+  | "botcase" :: rest =>
+    -- a fresh bot shown one state in which it is asked (stack on an edge of its amount logic): exactly one modelled, legal move
+    match kvInt rest "gi", parseView rest, kv post "move" with
+    | some gi, some v, some mv =>
+      let g := gi.toNat
+      let moves := botMoves v g
+      let d := { d with cnt := (d.cnt.bump "botcases").bump ("botcase." ++ (kv rest "edge").getD "?") }
+      if mv.startsWith "panic" then
+        let (d, o) := viol d ["C18.bot-crashed-instead-of-acting"]
+        ({ d with mismatches := d.mismatches + 1 }, mism d s!"botcase model-moves={repr moves} impl={mv}" ++ o)
+      else if mv == "none" then
+        if moves.isEmpty then (d, [])
+        else
+          let (d, o) := viol d ["C18.bot-silent-although-asked"]
+          ({ d with mismatches := d.mismatches + 1 }, mism d s!"botcase model-moves={repr moves} impl=silent" ++ o)
+      else
+        let multi := (mv.splitOn "+").length > 1
+        match parseCall ((mv.splitOn "+").head!) with
+        | some (k, a) =>
+          let inSet := moves.any (fun m => moveMatches m k a)
+          let legal := match v.players[g]? with
+            | some p => if wagerKinds.contains k then PF.accepts v p k a else p.allowed.contains k
+            | none => false
+          let vs := (if multi then ["C18.bot-made-more-than-one-move"] else []) ++
+                    (if inSet then [] else ["C18.bot-move-outside-the-modelled-set"]) ++
+                    (if legal then [] else ["C18.bot-move-not-acceptable-to-the-hand-engine"])
+          let (d, o) := viol d vs
+          let d := { d with cnt := d.cnt.bump ("botcase.move." ++ k) }
+          if inSet then (d, o) else ({ d with mismatches := d.mismatches + 1 }, mism d s!"botcase move={mv} model-moves={repr moves}" ++ o)
+        | none => (d, [s!"BADLINE {lineNo} ac-botcase-move"])
+    | _, _, _ => (d, [s!"BADLINE {lineNo} ac-botcase"])
   | "player" :: rest =>
     match kv rest "status", kvInt rest "atime", (kv rest "waited").bind boolOf, kv rest "st", kvInt rest "gi", parseView rest, kv post "call", kvInt post "delay_ms" with
     | some status, some atime, some waited, some st, some gi, some v, some call, some delay =>
@@ -111,9 +142,17 @@ def acLine (d : ACDrv) (lineNo : Nat) (ts : List String) : ACDrv × List String 
       let vs :=
         (if ["call", "bet", "raise", "allin"].contains callKind || (callKind == "early" && ["call", "bet", "raise", "allin"].contains ((call.splitOn ":").getD 1 "")) then ["C19.auto-play-volunteered-chips"] else []) ++
         (if callKind == "early" then ["C19.auto-play-acted-before-the-thinking-time-elapsed"] else []) ++
+        -- a payment is the posted size of the running hand (ante / this position's blind), whatever the table's level is now
+        (let payArg : Option Int := match call.splitOn ":" with
+            | ["pay", a] => a.toInt?
+            | ["early", "pay", a] => a.toInt?
+            | _ => none
+         match payArg with
+         | some a => if gi ≥ 0 && posted v gi.toNat == some a then [] else ["C19.auto-play-paid-other-than-the-posted-size"]
+         | none => []) ++
         (if expect.2 && call != "none" && callKind != "early" && delay < atime * 1000 - 50 then ["C19.auto-play-acted-before-the-thinking-time-elapsed"] else [])
       let (d, o) := viol d vs
-      let d := { d with cnt := (d.cnt.bump "player.cases").bump ("player." ++ (if expect.1 == "none" then "none" else if expect.1 == "armed" then "armed" else (expect.1.splitOn ":").head!)) }
+      let d := { d with cnt := ((d.cnt.bump "player.cases").bump (if (kv rest "lvlup").getD "0" == "1" then "player.level-changed-mid-hand" else "player.level-unchanged")).bump ("player." ++ (if expect.1 == "none" then "none" else if expect.1 == "armed" then "armed" else (expect.1.splitOn ":").head!)) }
       if call == expect.1 then (d, o)
       else ({ d with mismatches := d.mismatches + 1 }, mism d s!"player-runner status={status} at={atime} model={expect.1} impl={call}" ++ o)
     | _, _, _, _, _, _, _, _ => (d, [s!"BADLINE {lineNo} ac-player"])
